@@ -69,7 +69,17 @@ def main():
         by_seed = {}
         for sid, prop, rc, dt, mechs in results:
             by_seed.setdefault(sid, []).append(rc)
-        bad = [sid for sid, rcs in by_seed.items() if 1 not in rcs]
+        expected = {}
+        for sid in by_seed:
+            try:
+                r = json.load(open(os.path.join(VERIF, "seeded", sid, "meta.json"))).get("expected_not_caught")
+            except Exception:
+                r = None
+            if r:
+                expected[sid] = r
+        for sid in [x for x, rcs in by_seed.items() if 1 not in rcs and x in expected]:
+            print("  not caught, as recorded in its meta.json (outside what the property covers): %s" % sid)
+        bad = [sid for sid, rcs in by_seed.items() if 1 not in rcs and sid not in expected]
         odd = [r for r in results if r[2] not in (0, 1)]
         print("seeded: %d changes, %d runs, %d changes not caught by any listed check%s" % (len(by_seed), len(results), len(bad), (", %d runs neither 0 nor 1" % len(odd)) if odd else ""))
         for sid in bad:
